@@ -62,6 +62,7 @@ func cmdRun(args []string) {
 			fmt.Fprintf(os.Stderr, "case line %d: %v\n", ln, err)
 			os.Exit(2)
 		}
+		normalizeCase(&c)
 		if c.Pool != nil && len(c.Ops) == 0 && c.Fam == "" {
 			rn.pool = c.Pool
 			continue
